@@ -190,4 +190,18 @@ class C08(Spec):
         return ["r", "ca", "cb", "ha", "hb"]
 
 
-PROPS = {"C08": C08(), "C09": C09(), "C11": C11(), "C02": C02(), "C03": C03(), "C13": C13(), "C16": C16(), "C01": C01(), "C04": C04(), "C05": C05(), "C12": C12()}
+class C10(Spec):
+    lean_modules = ["Varint.Props.C10"]
+    diff_is_violation = True
+    rule = ("packed (row,col): all pairs of 16^d +-1 boundaries up to above 2^32 plus random; headers: all 72 width "
+            "combinations with extreme counts; matrices: rows 0..40 x cols 1..300, entry widths 1-8 bytes, float, double "
+            "and bit cells, zero/ones/random prior contents, exact-size buffer, the whole buffer compared with a "
+            "reference after every write (row 0, last row, last column, random cells)")
+    assumptions = ["half-float cells (F16C only, not compiled in the pinned build) are not covered",
+                   "float/double cells are modelled as 4/8 stored bytes"]
+
+    def gen(self, rng, tier):
+        return genops.gen_dim(rng, tier)
+
+
+PROPS = {"C10": C10(), "C08": C08(), "C09": C09(), "C11": C11(), "C02": C02(), "C03": C03(), "C13": C13(), "C16": C16(), "C01": C01(), "C04": C04(), "C05": C05(), "C12": C12()}
